@@ -10,6 +10,7 @@
 //   bool-sparse flat_boolean_numerical_domain<sparse_dbm_domain>   (z_bool_num_domain_t)
 //   pow-itv     powerset_domain<interval_domain>
 //   pow-zones   powerset_domain<split_dbm>
+//   pow-bool    powerset_domain<flat_boolean_numerical_domain<interval_domain>>   (boolean sub-stream only)
 // Release configuration (the default CMAKE_BUILD_TYPE of crab): assert() is compiled out.
 // With assertions on, split_oct aborts on `top || x` (assert(left.m_potential.size() > 0)).
 #ifndef NDEBUG
@@ -46,6 +47,7 @@ typedef flat_boolean_numerical_domain<sparse_t> bool_sparse_t;
 typedef reduced_numerical_domain_product2<itv_t, cong_t> prod_ic_t;
 typedef powerset_domain<zones_t> pow_zones_t;
 typedef powerset_domain<itv_t> pow_itv_t;
+typedef powerset_domain<bool_itv_t> pow_bool_t;
 
 static std::string mode = "disitv";
 template <typename D> static std::string run(const std::vector<std::string> &t) {
@@ -63,6 +65,7 @@ static std::string eval(const std::vector<std::string> &t) {
   if (mode == "bool-sparse") return run<bool_sparse_t>(t);
   if (mode == "pow-itv") return run<pow_itv_t>(t);
   if (mode == "pow-zones") return run<pow_zones_t>(t);
+  if (mode == "pow-bool") return run<pow_bool_t>(t);
   return "HARNESS-ERROR unknown mode " + mode;
 }
 int main(int argc, char **argv) {
